@@ -131,7 +131,10 @@ func docBytes(r *Rng, d *UDoc) string {
 	return s
 }
 
-func runUM(c UCase) Case {
+func runUM(c UCase) Case { cs, _ := runUMFull(c); return cs }
+
+// runUMFull also returns the restored error (nil on failure) for follow-up steps.
+func runUMFull(c UCase) (Case, unmarshaler.UnmarshaledError) {
 	w := buildUM(c)
 	var input *unmarshaler.DecodedData
 	decErr := c.DecErr
@@ -271,8 +274,11 @@ func runUM(c UCase) Case {
 	if c.Bytes != "" {
 		cls = "bytes"
 	}
+	if panicked != "" || err != nil {
+		res = nil
+	}
 	return Case{Coq: coq, Desc: mustJSON(c), Tags: tags, Size: docSize(c.Doc) + len(c.Cfg.Defs), Nontrivial: c.Doc != nil && (len(c.Doc.Fields) > 0 || len(c.Doc.Causes) > 0),
-		Class: cls + "/" + class, Summary: sum, Observed: obsStr}
+		Class: cls + "/" + class, Summary: sum, Observed: obsStr}, res
 }
 
 // deepView renders a DecodedData tree by value (pointers followed) for the "input unchanged" comparison.
